@@ -57,6 +57,7 @@ def st_interval(thorough):
         baddest=st.integers(0, 2), event=st.sampled_from([None, None, "connect", "ready", "leave", "setname", "accept", "accept"]),
         dt=st.sampled_from([2.0, 2.0, 0.95, 2.0, 6.0, 1.05]),
         deaf=st.sampled_from([0, 0, 1]),
+        blind=st.sampled_from([0, 0, 0, 1]),
     ))
 
 
@@ -76,6 +77,7 @@ class StatsWorld:
         self.got_timing = False
         self.el_timing = 0.0  # virtual time since the last TIMING / TRAFFIC report
         self.el_traffic = 0.0
+        self.el_active = 0.0  # virtual time since the monitor last saw an ACTIVE_CLIENTS report
         try:
             self.mon = self._connect(91, logger=1, pid=911)
             self._send(self.mon, P.MT_SUBSCRIBE, P.SUBSCRIBE.pack(P.ALL_MESSAGE_TYPES), src=91)
@@ -171,6 +173,8 @@ class StatsWorld:
             elif t == P.MT_ACKNOWLEDGE and fr.src_mod_id == 0:
                 continue
             else:
+                if t == P.MT_ACTIVE_CLIENTS and fr.src_mod_id == 0:
+                    self.el_active = 0.0
                 self.seen_timing[t] += 1
                 self.seen_traffic[t] += 1
 
@@ -243,6 +247,7 @@ class StatsWorld:
         pending = sum(self.seen_traffic.values())
         self.el_timing += dt
         self.el_traffic += dt
+        self.el_active += dt
         writable = [c for c in self.sim.conns if not (deaf and c is getattr(self, "mon3", None))]
         if accept_only:
             # the only thing ready in the report round is the listening socket (a new connection is waiting)
@@ -316,6 +321,16 @@ class StatsWorld:
                 self.seen_timing[t] += 1
                 self.seen_traffic[t] += 1
         ev = iv["event"]
+        # an interval that nobody can see: no module is subscribed to MESSAGE_TRAFFIC or to all types when it ends.  The
+        # statistics of such an interval are reported to nobody - and must not turn up in a later report.  (Only when the
+        # 5 s ACTIVE_CLIENTS burst cannot fire in it: its CLIENT_INFO messages would be counted unseen for the next interval.)
+        blind = bool(iv.get("blind")) and iv["dt"] >= 1.05 and self.el_active + iv["dt"] <= 4.5 and self.cfg.get("timing", True)
+        if blind:
+            ev = None
+            self._send(self.mon, P.MT_UNSUBSCRIBE, P.SUBSCRIBE.pack(P.ALL_MESSAGE_TYPES), src=91)
+            for c, mid in ((self.mon2, 92), (self.mon3, 93)):
+                self._send(c, P.MT_UNSUBSCRIBE, P.SUBSCRIBE.pack(P.MT_MESSAGE_TRAFFIC), src=mid)
+            self.pump()
         if ev == "connect":
             mid = 40 + len(self.extra)
             if mid < 99:
@@ -326,8 +341,17 @@ class StatsWorld:
             self.pids[c.mod_id] = 7000 + c.mod_id
         elif ev == "leave" and self.extra:
             c = self.extra.pop()
-            self._send(c, P.MT_DISCONNECT, src=c.mod_id)
+            # what a module published in an interval counts for that interval also when the module has left before it ends
+            for k in range(1 + c.mod_id % 3):
+                self._send(c, 4300 + c.mod_id % 7, b"", src=c.mod_id)
+            self.pump()
+            if c.mod_id % 2:
+                self._send(c, P.MT_DISCONNECT, src=c.mod_id)
+            else:
+                c.c.close()
             self.pids.pop(c.mod_id, None)
+            if res is not None:
+                res.count("intervals-in-which-a-publishing-module-leaves")
         elif ev == "setname" and self.extra:
             c = self.extra[-1]
             self._send(c, P.MT_CLIENT_SET_NAME, P.cstr(b"renamed"), src=c.mod_id)
@@ -339,6 +363,21 @@ class StatsWorld:
                 self.pump()
         self.pump()
         ndist = len({t for t, _, _ in jobs})
+        if blind:
+            self.report(iv["dt"], check=False)
+            # everything forwarded so far was reported (to nobody) by that step: a clean slate for the independent count
+            self.seen_traffic, self.seen_timing = Counter(), Counter()
+            self.el_timing = self.el_traffic = 0.0
+            self._send(self.mon, P.MT_SUBSCRIBE, P.SUBSCRIBE.pack(P.ALL_MESSAGE_TYPES), src=91)
+            for c, mid in ((self.mon2, 92), (self.mon3, 93)):
+                self._send(c, P.MT_SUBSCRIBE, P.SUBSCRIBE.pack(P.MT_MESSAGE_TRAFFIC), src=mid)
+            self.pump()
+            self.mon2_reports, self.mon_reports = [], []
+            self.seen_traffic, self.seen_timing = Counter(), Counter()
+            if res is not None:
+                res.count("intervals")
+                res.count("intervals-that-end-while-nobody-subscribes-to-the-reports")
+            return
         fired = self.report(iv["dt"], accept_only=(ev == "accept"), deaf=bool(iv.get("deaf")))
         if res is not None and iv.get("deaf"):
             res.count("report-rounds-with-an-unwritable-report-subscriber")
